@@ -21,7 +21,7 @@ func init() {
 		"non-trivial = differs from base; distinct = (source hash, document)"
 }
 
-var c08Devs = []string{"SIZED_INT_ENUM_REJECTS_ALL", "REF_UNTYPED_DEF_IS_ANY", "ENUM_WRAPPER_MAPVAL_MARSHAL", "DEFAULT_ENUM_NULL_REJECTED"}
+var c08Devs = []string{"NULL_ENUM_ZERO_MEMBER_ACCEPTED", "SIZED_INT_ENUM_REJECTS_ALL", "REF_UNTYPED_DEF_IS_ANY", "ENUM_WRAPPER_MAPVAL_MARSHAL", "DEFAULT_ENUM_NULL_REJECTED"}
 
 type enumList struct {
 	name string
@@ -53,6 +53,7 @@ func c08Lists(level int) []enumList {
 func c08(ctx *Ctx) {
 	cases, want := c08Cases(ctx.Level)
 	runBehaviour(ctx, behaviour{Name: "enum", Cases: cases, Devs: c08Devs, Values: true,
+		ModelInit: func(m *refmodel.Model) { m.EnumNullJudged = true },
 		OnProgram: func(sc *SCase, p *batch.Program) { c08Consts(ctx, sc, p, want[sc.ID]) },
 		DocFilter: func(sc *SCase, d *refmodel.Doc, tv refmodel.Verdict) bool {
 			return !strings.Contains(d.Class, "extra-key")
